@@ -27,10 +27,16 @@ TEXT = {
          "Small state space explored densely (thousands of op sequences of length <=12): Verify never before enable, enable verifies exactly the installed pointer, failure keeps the delay, callbacks withheld iff delay in force and suppress option."),
  "C20": ("rapid differential test: a transforming source with 9 mangler lists around static/watching/failing inner sources vs an unwrapped Dials fed natively, and model-based scripts of SetSource/Done on a Blank, all inside synctest bubbles",
          "Views behind the wrapper must equal the unwrapped reference and a pure model after the initial stack and every update; errors must surface; Blank's delegation/ownership rules are checked against a small reference model. Mangler lists come from a fixed menu."),
+ "C10": ("rapid property tests: generated struct types x mangler chains (the 15 shipped chain variants built from the exported constructors, plus random sub-chains of all nine manglers, optionally two stacked transformers); a descriptor-level model of each mangler locates translated fields by documented key, fills a subset, reverse-translates",
+         "Result type must equal the pointerified original exactly, each written leaf holds the value converted back, every other leaf is nil, parents allocated iff a child is set, the all-empty value reverses to all-nil; TranslateType's key set must equal the model's. Bounded shapes; key words known by construction."),
+ "C11": ("rapid property test of the environment source: generated struct types with dials tags in four spellings at any level, dialsenv tags, prefix, noise variables and bad values; expected variable names and value texts built by the harness, never by the library's case decoders or parsers",
+         "A leaf must be set iff its by-construction variable is present, to exactly the generated value; everything else nil; unparsable / out-of-range text is an error. Process environment is set and restored per case; cases run sequentially."),
  "C12": ("rapid property tests for both flag packages: generated struct types x template defaults x name configs x argv (subset, repeats, order, all spellings); names, advertised defaults and values by construction; result stacked between a lower and a higher layer",
          "Flag names, default strings, set/unset pattern, accumulation of repeated collection flags and range errors are predicted by harness code that never calls dials; bounded shapes, sampled."),
  "C13": ("rapid differential test: a generated data tree rendered by the harness's own emitters into JSON, YAML, TOML and Cue, decoded by the four decoders (bare, set->slice wrapped, ez-wrapped), compared with the by-construction value and pairwise after stacking; plus type-directed single-token corruptions that must yield an error and no value",
          "Each decoder is compared with an expected value built from the generated tree (absent key => unset) and with the other three; corruptions are drawn per leaf type and format. Types are restricted to what all four formats can spell (assumptions list the third-party limits)."),
+ "C14": ("rapid property tests per alias-capable source (env, flag, pflag incl. shorthands, the four decoders wrapped as ez wraps them, and the real ez entry point): alias tags on fields at any depth, per aliased field neither / primary / alias / both",
+         "Names under which values are supplied are known by construction; 'both' must produce an error naming the field (innermost error text), otherwise the value lands in the field and nothing else changes. Struct-typed aliases duplicate the subtree; bounded shapes."),
  "C15": ("rapid round-trip and range properties over every scalar type, four collection kinds and integral slices (canonical text from the flag helpers' String()), structural integer literals (bases, '_', blanks), boundary literals judged with math/big; plus coverage-guided fuzzing of the same properties (rapid.MakeFuzz) in the thorough tier",
          "Pure functions: hundreds of thousands of generated values / literals per run; oracle is parse(canonical(v)) == v and big-integer / exact float range arithmetic independent of strconv's range handling."),
  "C19": ("rapid property tests: decode(encode(ws)) == ws for six schemes; Go identifiers assembled from words and initialisms must split into the assembly list",
